@@ -12,7 +12,8 @@
   "unwind": 38,
   "solver": "cadical",
   "native_replay": true,
-  "timeout": 300
+  "timeout": 300,
+  "timeout_thorough": 1200
 }
 @*/
 /* C07.U3b  parser of the ClientHello supported_versions extension
